@@ -360,11 +360,59 @@ func (g *G) important() string {
 	return ""
 }
 
+// hazardBurst generates one of the shapes in which a shorthand tracker has to notice something
+// between the declarations it would like to merge.
+func (g *G) hazardBurst() []string {
+	fam := g.pick("hfam", []string{"margin", "inset", "padding"})
+	side := func(i int) string { return boxProps[fam][1+i%4] }
+	plain := func() string { return g.pick("hlen", []string{"0", "1px", "2px", "0px", "3px", "5%", "1em"}) }
+	special := func() string {
+		xs := []string{"var(--v)", "calc(1px + var(--v))", "calc(100% - 10px)"}
+		if g.O.Free {
+			xs = append(xs, "foo(1px)", "max(1px, 2px)")
+		}
+		if fam != "padding" {
+			xs = append(xs, "auto")
+		}
+		return g.pick("hspecial", xs)
+	}
+	s := g.num("hside", 0, 3)
+	switch g.weighted("hazard", 22, 18, 18, 14, 14, 14) {
+	case 0: // shorthand, un-trackable longhand, trackable longhand of another side
+		return []string{fam + ": " + plain() + " " + plain(), side(s) + ": " + special(), side(s+1) + ": " + plain()}
+	case 1: // four longhands, one of them replaced in between by something un-trackable
+		return []string{side(0) + ": " + plain(), side(1) + ": " + plain(), side(2) + ": " + plain(), side(s) + ": " + special(), side(3) + ": " + plain()}
+	case 2: // !important in the middle
+		return []string{fam + ": " + plain() + " !important", side(s) + ": " + plain(), side(s+1) + ": " + plain() + " !important", side(s+2) + ": " + plain()}
+	case 3: // all four sides, one important
+		out := []string{}
+		for i := 0; i < 4; i++ {
+			d := side(i) + ": " + plain()
+			if i == s {
+				d += " !important"
+			}
+			out = append(out, d)
+		}
+		return out
+	case 4: // longhand then shorthand then the same longhand (override chain)
+		return []string{side(s) + ": " + plain(), fam + ": " + plain() + " " + plain() + " " + plain(), side(s) + ": " + special(), side(s) + ": " + plain()}
+	default: // shorthand with an un-trackable value between two trackable shorthands
+		sp := special()
+		if fam == "inset" {
+			sp = plain() // var() in the inset shorthand cannot be lowered by anybody: the four sides' number of values is unknown
+		}
+		return []string{fam + ": " + plain(), side(s) + ": " + plain(), fam + ": " + plain() + " " + sp, side(s+1) + ": " + plain()}
+	}
+}
+
 // boxBurst generates 2-5 declarations of one box family, shorthand and longhands interleaved.
 func (g *G) boxBurst() []string {
+	if g.chance("hazard", 30) {
+		return g.hazardBurst()
+	}
 	fam := g.pick("fam", []string{"margin", "padding", "inset", "margin", "inset"})
 	auto := fam != "padding"
-	n := g.num("burst", 2, 5)
+	n := 6 - g.num("burst", 1, 4) // rapid favours small draws: mostly 4–5 declarations
 	var out []string
 	imp := ""
 	if g.chance("burstimp", 12) {
